@@ -375,6 +375,8 @@ def structured_histories(cpu):
         ("overwrite returned sample", [N(1), P(0, 3, 1), M(0, 7), N(1), P(0, 3, 2)]),
         ("set_seed(generator) binds that object", [N(2), dict(op="G", ref=1), P(0, 3, None), P(2, 3, 1), S(2), P(0, 3, None)]),
         ("same seed, explicit and global", [N(7), S(7), P(4, (2, 2), 1), P(4, (2, 2), None)]),
+        ("set_seed(generator), then the default call meets the entry keyed on that object",
+         [N(0), B("et", 2, 0, 1, None), dict(op="G", ref=1), B("et", 2, 0, None, cpu)]),
         ("size 0 draws nothing", [N(1), P(0, 0, 1), P(2, 0, 1), P(4, 0, 1), P(6, 0, 1), P(0, 3, 1)]),
         ("fit on explicit generator", [N(1), dict(op="F", fit=0, gen=1), S(3), dict(op="F", fit=0, gen=None), N(1),
                                        dict(op="F", fit=0, gen=3)]),
@@ -394,6 +396,11 @@ def advance_state(state, k):
 def run(seed, tier, replay=None):
     import common as C
     rep = C.Report("C14", seed, tier)
+    pending = []          # violations, flushed at the end: unkeyed first, then at most 3 per finding key
+
+    def violate(**kw):
+        pending.append(kw)
+
     rng = C.rng_for("C14", seed)
     drv = C.Driver()
     cpu = os.cpu_count() or 1
@@ -507,15 +514,15 @@ def run(seed, tier, replay=None):
             rep.case((name, seed, i, json.dumps(op, sort_keys=True)),
                      sample=dict(call=python_line(op), model=code_r[i]) if i == len(ops) - 1 else None)
             if after["error"]:
-                rep.violate(what=f"call {i} raised {after['error']}", input=dict(hist_in, index=i), call=python_line(op))
+                violate(what=f"call {i} raised {after['error']}", input=dict(hist_in, index=i), call=python_line(op))
             else:
                 if after["legacy"] != before["legacy"]:
-                    rep.violate(what="numpy's legacy global random state changed", input=dict(hist_in, index=i),
+                    violate(what="numpy's legacy global random state changed", input=dict(hist_in, index=i),
                                 call=python_line(op))
                 # isolation, stated directly: an explicit generator other than the global object leaves the global alone
                 if op["op"] in ("P", "B", "F") and op["gen"] is not None and op["gen"] != tr.glob:
                     if after["states"][tr.glob] != before["states"][tr.glob] or after["gidx"] != before["gidx"]:
-                        rep.violate(what="a call given an explicit generator changed the global default generator",
+                        violate(what="a call given an explicit generator changed the global default generator",
                                     input=dict(hist_in, index=i), call=python_line(op))
             if i < len(ops) - 1:
                 tr.apply(op)
@@ -531,7 +538,7 @@ def run(seed, tier, replay=None):
                 found, followed = [], pred_spec
         for kind, i, msg, extra in found:
             if kind == "violate":
-                rep.violate(what=msg, input=dict(hist_in, index=i, other=extra.get("other")), call=python_line(ops[i]),
+                violate(what=msg, input=dict(hist_in, index=i, other=extra.get("other")), call=python_line(ops[i]),
                             expected=extra.get("expected"), observed=extra.get("observed"))
             else:
                 rep.disagree(op="effect", note=msg, input=hist_in, index=i, call=python_line(ops[i]))
@@ -574,10 +581,22 @@ def run(seed, tier, replay=None):
                   call=python_line(last), model_predicts_equal=model_fresh)
         if is_f1:
             kw["finding_key"] = F1_KEY
-        rep.violate(**kw)
+        violate(**kw)
 
+    keyed = {}
+    for kw in pending:
+        if kw.get("finding_key") is None:
+            rep.violate(**kw)
+    for kw in pending:
+        k = kw.get("finding_key")
+        if k is not None:
+            keyed[k] = keyed.get(k, 0) + 1
+            if keyed[k] <= 3:
+                rep.violate(**kw)
+            else:
+                rep.count(f"further violations keyed {k} (not listed)")
     return rep.result(
-        rule="17 structured histories (F1 explicit/global, set_seed rebinding, n_jobs, overwriting returned arrays, "
+        rule="18 structured histories (F1 explicit/global, set_seed rebinding, n_jobs, overwriting returned arrays, "
              "set_seed(generator), size 0, fits) + random histories of 2-12 calls over seeds {0,1,2,7}, 8 distributions x "
              "sizes {None,3,(2,2),0,1}, 7 samples (n=1..4) x confidences {.5,.9,.25} x methods {dkw,ks,ld_et,ld_hd} x n_jobs "
              "{1,2,16,None}, small fits, overwrites; the observed call repeats an earlier ld call's arguments with "
